@@ -11,6 +11,9 @@ import toolrun
 import tooltier
 from common import Check, pmap, run
 
+SIBLING = re.compile(r"(redefinition of|conflicting types for|redeclaration of|has already been declared)[^\n]*\b(default_|new_)\b|\b(default_|new_)\b[^\n]*\b(default_|new_)\b")
+# the C++ wrapper escapes a keyword-named field (`friend_`) while the C struct it converts to keeps the bare keyword: same finding F12
+KW_MEMBER = re.compile(r"has no member named ‘(%s)_’" % "|".join(tooltier.KEYWORD_FIELDS))
 KW_LINE = re.compile(r"(?:^|[\s.>(])(%s)\s*[;=,)]" % "|".join(tooltier.KEYWORD_FIELDS), re.M)
 INCLUDE_RE = re.compile(r'^\s*#\s*include\s+"([^"]+)"', re.M)
 IMPORT_RE = re.compile(r'^\s*(?:import|export)\s+(?:type\s+)?(?:(\*\s+as\s+\w+|\{[^}]*\}|\w+)\s+from\s+)?["\']([^"\']+)["\']', re.M)
@@ -113,6 +116,14 @@ def main(tier, seed):
         for b in ("cpp", "js"):
             prog = tooltier.backend_program(b, seed, i, avoid_known=True, size=("large" if i % 3 == 0 else "small"), salt="c09")
             tooltier.reference_graph_features(prog, rng, this_param=(i % 6 == 5), keyword_fields=(i % 5 == 4))
+            if i % 7 == 3:
+                # directed probe: a keyword-named parameter next to a sibling that already carries the escaped spelling
+                cands = [(t, m) for t, m in prog.methods() if m.name != "make" and not any(pt[0] in ("write", "cb") for _, pt in m.params)
+                         and not any(pn.replace("_", "") in ("default", "new") for pn, _ in m.params)]
+                if cands:
+                    t_, m_ = rng.choice(cands)
+                    kw = "default" if b == "cpp" else "new"
+                    m_.params = [(kw, ("prim", "u8")), (kw + "_", ("prim", "u16"))] + m_.params
             if i % 2:
                 tooltier.decorate(prog, rng, p_item=0.2)
             emit_rust.assign_abi_names(prog)
@@ -215,7 +226,9 @@ def main(tier, seed):
             key = None
             if extra.get("this_clash"):
                 key = {"kind": "rustc", "signature": "parameter named `this` on a method taking self"}
-            elif lang in ("cpp", "c") and isinstance(i, int) and i % 5 == 4 and KW_LINE.search(msg):
+            elif isinstance(i, int) and i % 7 == 3 and SIBLING.search(msg):
+                key = {"kind": lang, "signature": "escaped keyword parameter collides with a sibling parameter spelled <keyword>_"}
+            elif lang in ("cpp", "c") and isinstance(i, int) and i % 5 == 4 and (KW_LINE.search(msg) or KW_MEMBER.search(msg)):
                 key = {"kind": lang, "signature": "struct field named after a C/C++ keyword"}
             chk.violation("p%s_%s_%s" % (i, lang, re.sub(r"\W", "_", f)[:30]), "program p%s, %s %s: %s" % (i, lang, f, msg[:300]),
                           {"program": i, "lang": lang, "file": f, "message": msg, "dir": toolrun.workdir("c09"),
